@@ -27,8 +27,8 @@ def View.art (v : View) (n : Nat) : Option Art := v.arts.lookup n
 def World.view (w : World) (ret : Ret) (net : List NetAct) : View :=
   { ret := ret, net := net, sj := w.disk.stateJson, pj := w.disk.patchesJson,
     pdir := w.disk.patches.isSome,
-    arts := match w.disk.patches with | some p => p.arts | none => [],
-    junk := match w.disk.patches with | some p => p.junk | none => [] }
+    arts := w.disk.artsList,
+    junk := w.disk.junkList }
 
 def View.empty : View :=
   { ret := .unit, net := [], sj := .missing, pj := .missing, pdir := false, arts := [], junk := [] }
@@ -493,15 +493,15 @@ def eventOk (env : Env) (c : Config) (k : EventKind) (n : Nat) (e : Event) : Boo
 def netEvents (net : List NetAct) : List Event :=
   net.filterMap fun a => match a with | .event e => some e | _ => none
 
-def beforeCheck : List NetAct → List NetAct
+def netBeforeCheck : List NetAct → List NetAct
   | [] => []
   | .check _ :: _ => []
-  | a :: rest => a :: beforeCheck rest
+  | a :: rest => a :: netBeforeCheck rest
 
-def afterCheck : List NetAct → List NetAct
+def netAfterCheck : List NetAct → List NetAct
   | [] => []
   | .check _ :: rest => rest
-  | _ :: rest => afterCheck rest
+  | _ :: rest => netAfterCheck rest
 
 def mon17 : Monitor G14 where
   init := {}
@@ -530,8 +530,8 @@ def mon17 : Monitor G14 where
         | none => [(post.events = preEvents, "C17: event queue changed without a boot failure")]) : Checks) ++
         ([(netEvents post.net = [], "C17: failure handling sent an event immediately")] : Checks)
       | .update _ _ =>
-        let sent := netEvents (beforeCheck post.net)
-        let later := netEvents (afterCheck post.net)
+        let sent := netEvents (netBeforeCheck post.net)
+        let later := netEvents (netAfterCheck post.net)
         [ (sent = preEvents.take 3, s!"C17: update did not send the first three queued events, oldest first, before the patch check: sent {sent.length}"),
           (post.events = [], "C17: update left events in the queue"),
           (match installedBy op post with
